@@ -283,6 +283,18 @@ func runSLH(rc *sk.RunCtx, focus string) {
 	mw.onWire = func(from *simNode, d *simDatagram) { w.checkDestination(from, d) }
 	w.marked = map[slhMarkKey]*slhMark{}
 	mw.beforeDeliver = func(to *simNode, d *simDatagram) { w.noteHandshakeReply(to, d) }
+	// a completed handshake with the peer lifts the marks (the node clears its own list then); looked at after every
+	// delivery, because the tunnel may be gone again by the time the address is next dialled (thorough-tier false
+	// alarm of the first version, which only looked for a tunnel at dialling time)
+	mw.afterDeliver = func(to *simNode, d *simDatagram) {
+		for k := range w.marked {
+			if k.node == to {
+				if hi := to.f.hostMap.QueryVpnAddr(k.peer); hi != nil && hi.ConnectionState != nil {
+					delete(w.marked, k)
+				}
+			}
+		}
+	}
 	mw.afterEvent = func(name string) {
 		for _, nd := range mw.nodes {
 			if !nd.alive {
